@@ -75,6 +75,60 @@ def mk_crit(pairs, objs):
     return c
 
 
+def mk_tree(t, objs):
+    """criterion tree (harness/c14/crit.py) -> pypika term"""
+    from pypika import Case, Not
+    from pypika.terms import Function, ValueWrapper, AtTimezone, AggregateFunction
+    from pypika import analytics as an
+    k = t[0]
+    sub = lambda x: mk_tree(x, objs)   # noqa: E731
+    if k == "f":
+        return mk_field(t[1], t[2], objs)
+    if k == "c":
+        return ValueWrapper(3)
+    if k == "cmp":
+        return sub(t[1]) == sub(t[2])
+    if k == "and":
+        return sub(t[1]) & sub(t[2])
+    if k == "or":
+        return sub(t[1]) | sub(t[2])
+    if k == "arith":
+        return sub(t[1]) + sub(t[2])
+    if k == "bitand":
+        return sub(t[1]).bitwiseand(sub(t[2]))
+    if k == "between":
+        return sub(t[1]).between(sub(t[2]), sub(t[3]))
+    if k == "slice":
+        return sub(t[1])[sub(t[2]):sub(t[3])]
+    if k == "period":
+        return sub(t[1]).from_to(sub(t[2]), sub(t[3]))
+    if k == "in":
+        return sub(t[1]).isin([sub(i) for i in t[2]])
+    if k == "isnull":
+        return sub(t[1]).isnull()
+    if k == "notnull":
+        return sub(t[1]).notnull()
+    if k == "not":
+        return Not(sub(t[1]))
+    if k == "fn":
+        return Function("FJ", *[sub(a) for a in t[1]])
+    if k == "case":
+        c = Case()
+        for w, th in t[1]:
+            c = c.when(sub(w), sub(th))
+        return c if t[2] is None else c.else_(sub(t[2]))
+    if k == "neg":
+        return -sub(t[1])
+    if k == "attz":
+        return AtTimezone(sub(t[1]), "UTC")
+    if k == "over":
+        f = an.Sum(*[sub(a) for a in t[1]]).over(*[sub(a) for a in t[2]])
+        return f.orderby(*[sub(a) for a in t[3]]) if t[3] else f
+    if k == "filter":
+        return AggregateFunction("AGGJ", *[sub(a) for a in t[1]]).filter(sub(t[2]))
+    raise ValueError(t)
+
+
 def mk_rterm(t, objs, top=True):
     k = t[0]
     if k == "str":
@@ -153,8 +207,12 @@ def do_qcall(q, call, objs):
         how = getattr(JoinType, call[3]) if len(call) > 3 else JoinType.inner
         j = q.join(item, how)
         h = call[2]
-        if h[0] == "on":
-            crit = None if h[1] is None else mk_crit(h[1], objs)
+        if h[0] in ("on", "onx"):
+            from .crit import as_tree
+            tree = as_tree(h)
+            crit = None if tree is None else mk_tree(tree, objs)
+            if crit is not None:
+                objs.append(crit)
             return j.on(crit)
         if h[0] == "on_field":
             return j.on_field(*h[1])
